@@ -62,13 +62,57 @@ def scrub(rep, f, c, rule):
             for (x, h) in b.back_edges():
                 if h == H:
                     body_blocks |= positions_between(b, H, x)
+            # the loop may be driven by an index (`while i < hi { bytes[i] = 0; i += 1 }`) or by an iterator over a part of the
+            # bytes (`for byte in &mut bytes[lo..hi]`, `bytes.iter_mut().skip(lo)`): find what it walks and what it stores
+            BY = strip_ref(bytes_e)
+
+            def under_bytes(e):
+                e = strip_ref(e)
+                while e[0] in ('deref', 'ref'):
+                    e = strip_ref(e[1])
+                return e == BY or strip_ref(e) == BY
+
+            def iter_part(e, depth=0):
+                """iterator expression -> ('range', lo, hi) / ('from', lo) over the str bytes, or None"""
+                e = strip_ref(e)
+                while e[0] in ('deref', 'ref'):
+                    e = strip_ref(e[1])
+                if e[0] != 'call' or depth > 8:
+                    return None
+                sfn = (e[1] or '').rsplit('::', 1)[-1]
+                if sfn in ('into_iter', 'iter_mut', 'by_ref') and e[2]:
+                    inner = strip_ref(e[2][0])
+                    while inner[0] in ('deref', 'ref'):
+                        inner = strip_ref(inner[1])
+                    if under_bytes(inner):
+                        return ('from', ('c', 0, 'usize'))
+                    return iter_part(inner, depth + 1)
+                if sfn == 'skip' and len(e[2]) == 2:
+                    sub = iter_part(e[2][0], depth + 1)
+                    if sub == ('from', ('c', 0, 'usize')):
+                        return ('from', e[2][1])
+                    return None
+                if sfn == 'index_mut' and len(e[2]) == 2 and under_bytes(e[2][0]):
+                    rng = e[2][1]
+                    if rng[0] == 'agg' and rng[1].endswith('RangeFrom::RangeFrom'):
+                        return ('from', rng[2][0])
+                    if rng[0] == 'agg' and rng[1].endswith('Range::Range'):
+                        return ('range', rng[2][0], rng[2][1])
+                return None
             zero_store = False
+            walked = None
             for x in body_blocks:
                 for st in b.blocks[x]['s']:
                     if 'assign' in st and st['assign']['p'] and st['assign']['p'][0] == 'deref' and is_c(Resolver(b).rvalue(st['rv']), 0):
                         root = strip_ref(Resolver(b).local(st['assign']['l']))
                         if root == strip_ref(bytes_e):
                             zero_store = True
+                        elif root[0] == 'fld' and root[1][0] == 'as' and root[1][2] == 'Some' and root[1][1][0] == 'call' and \
+                                (root[1][1][1] or '').endswith('::next') and root[1][1][3] in body_blocks | {H}:
+                            part = iter_part(root[1][1][2][0])
+                            if part is not None:
+                                zero_store = True
+                                walked = part
             if not zero_store:
                 continue
             conds = []
@@ -76,16 +120,27 @@ def scrub(rep, f, c, rule):
                 t = b.blocks[x]['t']
                 if 'switch' in t and t.get('sty') == 'bool':
                     conds.append(Resolver(b).operand(t['switch']))
-            has_mask = any(e[0] == 'bin' and e[1] == 'Eq' and e[2][0] == 'bin' and e[2][1] == 'BitAnd' and is_c(e[2][3], 0xC0) and is_c(e[3], 0x80) for e in conds)
-            lt_len = any(e[0] == 'bin' and e[1] == 'Lt' and e[3] == ('len', strip_ref(bytes_e)) for e in conds)
+            has_mask = any(e[0] == 'bin' and e[1] in ('Eq', 'Ne') and e[2][0] == 'bin' and e[2][1] == 'BitAnd' and is_c(e[2][3], 0xC0) and is_c(e[3], 0x80) for e in conds)
+            lt_len = any(e[0] == 'bin' and e[1] == 'Lt' and e[3] == ('len', strip_ref(bytes_e)) for e in conds) or (walked is not None and walked[0] == 'from')
+
+            def min_bound(e):
+                """e == min(len(bytes), x + K) — as a call of cmp::min or written as a branch -> K"""
+                pair = None
+                if e[0] == 'call' and e[1] in ('core::cmp::min', 'core::cmp::Ord::min'):
+                    pair = e[2]
+                elif e[0] == 'loc':
+                    pair = min_select(b, e[1])
+                if pair is None:
+                    return None
+                lens = [x for x in pair if x == ('len', strip_ref(bytes_e))]
+                adds = [x for x in pair if x[0] == 'bin' and x[1] == 'Add' and is_c(x[3])]
+                return adds[0][3][1] if lens and adds else None
             lt_min = None
             for e in conds:
-                if e[0] == 'bin' and e[1] == 'Lt' and e[3][0] == 'call' and e[3][1] in ('core::cmp::min', 'core::cmp::Ord::min'):
-                    a = e[3][2]
-                    lens = [x for x in a if x == ('len', strip_ref(bytes_e))]
-                    adds = [x for x in a if x[0] == 'bin' and x[1] == 'Add' and is_c(x[3])]
-                    if lens and adds:
-                        lt_min = adds[0][3][1]
+                if e[0] == 'bin' and e[1] == 'Lt' and min_bound(e[3]) is not None:
+                    lt_min = min_bound(e[3])
+            if walked is not None and walked[0] == 'range' and not has_mask and min_bound(walked[2]) is not None:
+                lt_min = min_bound(walked[2])
             if has_mask and lt_len:
                 cont_loop = H
             elif lt_min is not None:
@@ -96,6 +151,9 @@ def scrub(rep, f, c, rule):
                     tt = b.blocks[S]['t']
                     if S in b.reach_from([cbi]) and tt.get('sty') == 'bool':
                         guards.append((Resolver(b).operand(tt['switch']), bool_truth(b, S, label)))
+                # entering the loop only when its range is not empty skips nothing
+                if walked is not None and walked[0] == 'range':
+                    guards = [(g, tr) for g, tr in guards if not (tr is True and g == ('bin', 'Lt', walked[1], walked[2]))]
                 stride_guard = guards
         ok_cont = cont_loop is not None and cont_loop in pdom.get(cbi, ())
         rep.ob(rule + '.continuation', name, ok_cont,
